@@ -1,5 +1,6 @@
 import OsmVerif.Model.Json
 import OsmVerif.Lemmas.Schema
+import OsmVerif.Model.JsonFields
 /-!
 # C05 — OSM JSON is osmjson-shaped and round-trips
 
@@ -142,6 +143,31 @@ theorem codec_routing :
     unmarshalJSONHelperBody = ["if CustomJSONUnmarshaler == nil { return json.Unmarshal(data, v) }", "return CustomJSONUnmarshaler.Unmarshal(data, v)"] := by
   decide
 
+/-! ## the scalar keys of every element (the flat part of the reflection codec) -/
+
+/-- **every record's scalar keys round-trip**: reading back what was written gives every scalar field its
+    value; a key left out by `omitempty` held exactly the zero value it is read back as -/
+theorem json_fields_roundtrip (t : String) (r : Rec) (hnd : (jsonKeyNames t).Nodup) :
+    decodeJson t (encodeJson t r) =
+      (fieldsOf t).filterMap fun f => if (jsonView f).use then some (f.name, r.get f.name) else none :=
+  OsmVerif.Model.Record.roundtrip jsonView (fun f => zeroText f.type) (fieldsOf t) r hnd
+    (fun f _ txt h => by
+      simp only [jsonView, Bool.and_eq_true] at h
+      exact jsonEmpty_zero f.type txt h.2)
+
+/-- no codec struct uses a JSON key twice -/
+theorem codec_json_keys_distinct : ∀ t ∈ codecTypes, (jsonKeyNames t).Nodup := by decide
+
+/-- decoding does not depend on the order of the keys of an object … -/
+theorem json_decode_perm (t : String) (a1 a2 : List (String × String)) (hp : a1.Perm a2) (hn : (a1.map (·.1)).Nodup) :
+    decodeJson t a1 = decodeJson t a2 :=
+  OsmVerif.Model.Record.dec_perm _ _ _ a1 a2 hp hn
+
+/-- … and ignores unknown keys -/
+theorem json_decode_ignores_unknown (t : String) (kvs : List (String × String)) (k v : String) (hk : k ∉ jsonKeyNames t) :
+    decodeJson t ((k, v) :: kvs) = decodeJson t kvs :=
+  OsmVerif.Model.Record.dec_ignores_unknown _ _ _ kvs k v hk
+
 /-! ## tags and way nodes -/
 
 theorem tagsMap_nodup_aux (m ts : List (String × String)) (h : (m ++ ts).map (·.1) |>.Nodup) :
@@ -182,5 +208,8 @@ example : runU UP { keys := [("generator", .str "g")], elements := [("way", 3), 
 example : runU UP { elements := [("", 3)] } = none := by decide
 example : runU UP { elements := [("bounds", 3)] } = none := by decide
 example : tagsMap [("a", "1"), ("b", "2"), ("a", "3")] = [("a", "3"), ("b", "2")] := by decide
+example : encodeJson "Node" [("ID", "7"), ("Lat", "1.5"), ("Lon", "0"), ("User", ""), ("UserID", "0"), ("Visible", "true"), ("Version", "0"),
+    ("ChangesetID", "0"), ("Timestamp", "0001-01-01T00:00:00Z"), ("Committed", "")] =
+    [("id", "7"), ("lat", "1.5"), ("lon", "0"), ("visible", "true"), ("timestamp", "0001-01-01T00:00:00Z")] := by decide
 
 end OsmVerif.Props.C05
